@@ -9,7 +9,7 @@ focus = open(focusf).read()
 props = [json.loads(l) for l in open('/verif/properties.jsonl')]
 def prior(pid):
     out = []
-    pat = '/verif/seeded/%s?/meta.json' if kind == 'mut' else '/verif/seeded_equiv/%sr?/meta.json'
+    pat = '/verif/seeded/%s*/meta.json' if kind == 'mut' else '/verif/seeded_equiv/%sr*/meta.json'
     for m in sorted(glob.glob(pat % pid)):
         try:
             s = json.load(open(m)).get('summary', '')
